@@ -18,19 +18,20 @@ def allAtt : List Att := [.opening, .sendingInit, .awaitInit, .closing, .idle]
 def allCloser : List Closer := [.none, .other, .attempt, .attemptC, .sender]
 def allMode : List SendMode := [.ok, .block, .fail]
 def allFirst : List First := [.initP, .initF, .pierceP, .pierceF, .pierceUnknown, .undecodable]
+def allReason : List Reason := [.unknown, .connectFailed, .requested, .readError, .writeError, .timeout, .eof]
 
 def allCOp : List COp :=
   allMode.map .connectOk ++ [.connectFail, .connectTimeout, .cancelAttempt] ++ allFirst.map .firstFrame ++
-  allBool.map .frame ++ [.partialEof, .eof, .reset, .readTimeout, .disconnect, .closeDone] ++ allMode.map .send ++
-  [.drainOk] ++ allBool.map .sendTimeout ++ [.restart]
+  allBool.map .frame ++ [.partialEof, .eof, .reset, .readTimeout, .closeDone] ++ allReason.map .disconnect ++
+  allMode.map .send ++ [.drainOk] ++ allBool.map .sendTimeout ++ [.restart] ++ allMode.map .queue ++ [.queueTimeout]
 
 def allK : List K :=
   allOrigin.flatMap fun origin => allBool.flatMap fun typF => allBool.flatMap fun slow =>
   allCState.flatMap fun st => allAtt.flatMap fun att => allBool.flatMap fun reader =>
   allBool.flatMap fun sock => allCloser.flatMap fun closer => allBool.flatMap fun sendParked =>
-  allBool.map fun registered =>
+  allBool.flatMap fun qParked => allBool.map fun registered =>
     { origin := origin, typF := typF, slow := slow, st := st, att := att, reader := reader, sock := sock,
-      closer := closer, sendParked := sendParked, registered := registered }
+      closer := closer, sendParked := sendParked, qParked := qParked, registered := registered }
 
 theorem mem_allBool (b : Bool) : b ∈ allBool := by cases b <;> decide
 theorem mem_allOrigin (x : Origin) : x ∈ allOrigin := by cases x <;> decide
@@ -39,6 +40,7 @@ theorem mem_allAtt (x : Att) : x ∈ allAtt := by cases x <;> decide
 theorem mem_allCloser (x : Closer) : x ∈ allCloser := by cases x <;> decide
 theorem mem_allMode (x : SendMode) : x ∈ allMode := by cases x <;> decide
 theorem mem_allFirst (x : First) : x ∈ allFirst := by cases x <;> decide
+theorem mem_allReason (x : Reason) : x ∈ allReason := by cases x <;> decide
 
 theorem mem_allCOp (op : COp) : op ∈ allCOp := by
   cases op with
@@ -47,13 +49,15 @@ theorem mem_allCOp (op : COp) : op ∈ allCOp := by
   | frame g => cases g <;> decide
   | send m => cases m <;> decide
   | sendTimeout a => cases a <;> decide
+  | disconnect r => cases r <;> decide
+  | queue m => cases m <;> decide
   | _ => decide
 
 theorem mem_allK (k : K) : k ∈ allK := by
   simp only [allK, List.mem_flatMap, List.mem_map]
   exact ⟨k.origin, mem_allOrigin _, k.typF, mem_allBool _, k.slow, mem_allBool _, k.st, mem_allCState _,
     k.att, mem_allAtt _, k.reader, mem_allBool _, k.sock, mem_allBool _, k.closer, mem_allCloser _,
-    k.sendParked, mem_allBool _, k.registered, mem_allBool _, rfl⟩
+    k.sendParked, mem_allBool _, k.qParked, mem_allBool _, k.registered, mem_allBool _, rfl⟩
 
 /-! ## well-formed control states -/
 
@@ -68,7 +72,8 @@ def good (k : K) : Bool :=
   (k.att != .awaitInit || (k.st == .connected && k.origin == .incoming)) &&
   ((k.att == .closing) == (k.closer == .attempt || k.closer == .attemptC)) &&
   (!k.reader || (k.sock && k.att == .idle)) &&
-  (!k.sendParked || k.sock)
+  (!k.sendParked || k.sock) &&
+  (!k.qParked || k.sock)
 
 /-! ## legal event histories -/
 
@@ -87,6 +92,7 @@ def track (o : Origin) : CState → List Ev → Option CState
   | s, .cc :: es => track o s es
   | s, .attRes _ :: es => track o s es
   | s, .sendRes _ :: es => track o s es
+  | s, .queueRes _ :: es => track o s es
 
 /-- connect-back: the peer that asked got a pierce-firewall message, or the server a CannotConnect,
 unless the attempt was cancelled -/
@@ -145,7 +151,8 @@ theorem new_good (o : Origin) (t s : Bool) :
 /-- consequences of `good` used by the registry theorems, decided over the enumeration -/
 def kFacts (k : K) : Bool :=
   !good k || ((k.registered == (k.origin != .server && k.st != .closed && k.live)) &&
-    (k.live || k.st == .closed) && k.st != .uninit)
+    (k.live || k.st == .closed) && k.st != .uninit &&
+    (k.st == .connected || (!k.sendParked && !k.qParked && !k.reader)))
 
 theorem kfacts_ok : allK.all kFacts = true := by decide +kernel
 
@@ -155,7 +162,7 @@ theorem good_facts {k : K} (h : good k = true) :
   have h1 := List.all_eq_true.mp kfacts_ok k (mem_allK k)
   simp only [kFacts, h, Bool.not_true, Bool.false_or, Bool.and_eq_true, beq_iff_eq, Bool.or_eq_true, bne_iff_ne,
     ne_eq] at h1
-  obtain ⟨⟨a, b⟩, c⟩ := h1
+  obtain ⟨⟨⟨a, b⟩, c⟩, _⟩ := h1
   refine ⟨?_, ?_, c⟩
   · rw [a]
     simp [Bool.and_eq_true, bne_iff_ne, and_assoc]
@@ -163,6 +170,18 @@ theorem good_facts {k : K} (h : good k = true) :
     rcases b with b | b
     · rw [hl] at b; cases b
     · exact b
+
+/-- nothing is parked on the socket of a connection that is not CONNECTED: no direct send, no queued send
+(pending output), no reader -/
+theorem good_parked {k : K} (h : good k = true) (hs : k.st ≠ .connected) :
+    k.sendParked = false ∧ k.qParked = false ∧ k.reader = false := by
+  have h1 := List.all_eq_true.mp kfacts_ok k (mem_allK k)
+  simp only [kFacts, h, Bool.not_true, Bool.false_or, Bool.and_eq_true, beq_iff_eq, Bool.or_eq_true, bne_iff_ne,
+    ne_eq, Bool.not_eq_true'] at h1
+  obtain ⟨_, d⟩ := h1
+  rcases d with d | d
+  · exact absurd d hs
+  · exact ⟨d.1.1, d.1.2, d.2⟩
 
 /-! ## `track` -/
 
@@ -223,6 +242,7 @@ theorem track_mono {o : Origin} (ho : o ≠ .server) :
     | cc => exact ih s t h
     | attRes _ => exact ih s t h
     | sendRes _ => exact ih s t h
+    | queueRes _ => exact ih s t h
 
 /-- the control state's `st` is the last reported state -/
 theorem track_last (o : Origin) : ∀ (evs : List Ev) (s t : CState), track o s evs = some t →
@@ -254,6 +274,7 @@ theorem track_last (o : Origin) : ∀ (evs : List Ev) (s t : CState), track o s 
     | cc => exact ih s t h
     | attRes _ => exact ih s t h
     | sendRes _ => exact ih s t h
+    | queueRes _ => exact ih s t h
 
 /-- peers: after CLOSED nothing is reported, delivered or written -/
 theorem track_closed {o : Origin} (ho : o ≠ .server) : ∀ (evs : List Ev) (t : CState),
@@ -279,6 +300,7 @@ theorem track_closed {o : Origin} (ho : o ≠ .server) : ∀ (evs : List Ev) (t 
     | cc => have := ih t h; simpa [states] using this
     | attRes _ => have := ih t h; simpa [states] using this
     | sendRes _ => have := ih t h; simpa [states] using this
+    | queueRes _ => have := ih t h; simpa [states] using this
 
 theorem states_append (a b : List Ev) : states (a ++ b) = states a ++ states b := by
   induction a with
